@@ -1,4 +1,4 @@
 SPECIFICATION Spec
-CONSTANT MaxTasks = 12
+CONSTANT MaxTasks = 320
 POSTCONDITION Accepted
 CHECK_DEADLOCK FALSE
